@@ -1,0 +1,31 @@
+//go:build verif
+// +build verif
+
+package k8s
+
+import (
+	"math/rand"
+	"time"
+
+	gatewayclientset "github.com/kubewharf/kubegateway/pkg/client/kubernetes"
+	_interface "github.com/kubewharf/kubegateway/pkg/ratelimiter/store/interface"
+	"github.com/kubewharf/kubegateway/pkg/ratelimiter/store/local"
+)
+
+// VerifNewK8sCacheStore builds the API-backed store exactly like
+// NewK8sCacheStore, but does not start the periodic flush goroutine; instead it
+// returns the function that goroutine runs each period (store.sync), so that a
+// verification harness can fire the periodic flush at chosen points.
+// Verification-only hook (build tag verif).
+func VerifNewK8sCacheStore(gatewayClient gatewayclientset.Interface, syncPeriod time.Duration, shard, shardCount int) (_interface.LimitStore, func()) {
+	store := &objectStore{
+		id:            rand.Intn(10000),
+		shard:         shard,
+		shardCount:    shardCount,
+		stopCh:        make(chan struct{}),
+		syncPeriod:    syncPeriod,
+		localStore:    local.NewLocalStore(),
+		gatewayClient: gatewayClient,
+	}
+	return store, store.sync
+}
